@@ -341,7 +341,7 @@ func c07Case(c *core.Ctx, rng *rand.Rand, dir string, idx int, t0 time.Time, wea
 	if d, _ := hangDump.Load().(string); d != "" {
 		cls := hangClass(d)
 		close(stopAll)
-		if strings.Contains(cls, "send-under-lock") || cls == "lock-leaked" {
+		if strings.Contains(cls, "send-under-lock") || cls == "lock-leaked" || cls == "deadlock:lock-order" {
 			c.Violate("deadlock", "an API call did not return: "+cls, dumpExcerpt(d))
 		} else {
 			c.Inconclusive("API call not returned at the watchdog, dump class " + cls)
